@@ -12,6 +12,12 @@ def ruleA : Cls → Rule
   | .refresh => { mints := [.access, .refresh, .idtoken], expiresIn := 86400 }
   | .idtoken => { mints := [], expiresIn := 300 }
 
+/-- the harness variant "norefrule": no usage rule for refresh tokens — `RefreshToken.set_defaults` gives the minting
+    rights, `_mint_token` falls back to the refresh handler's lifetime (86400 s in the harness configuration) -/
+def ruleNR : Cls → Rule
+  | .refresh => { mints := [.access, .refresh], expiresIn := 86400 }
+  | c => ruleA c
+
 /-- the token-exchange variant of the harness configuration: access tokens may be exchanged -/
 def ruleX : Cls → Rule
   | .access => { mints := [.access, .refresh], expiresIn := 3600 }
@@ -98,9 +104,9 @@ def stepLine (d : DS) (args : List String) : DS × String :=
     match decList al with
     | none => (d, "bad-op")
     | some l =>
-      ({ cfg := { oidc := oidc = "1", jwt := jwt = "1", rule := (if usage = ["x"] then ruleX else ruleA), revokeRefreshOnIssue := false,
+      ({ cfg := { oidc := oidc = "1", jwt := jwt = "1", rule := (if usage = ["x"] then ruleX else if usage = ["nr"] then ruleNR else ruleA), revokeRefreshOnIssue := false,
                   clientOv := (if usage = ["c1"] then ovC1 else fun _ _ => none),
-                  allowed := parseAllowed l, grantExpiresIn := 43200, authnExpiresIn := 3600,
+                  allowed := parseAllowed l, grantExpiresIn := (if usage = ["ng"] ∨ usage = ["nr"] then 0 else 43200), authnExpiresIn := 3600,
                   -- harness configuration: client_1 back-channel, client_2 front-channel, client_3 no logout URI
                   logoutUri := fun c => c == lit "client_1" || c == lit "client_2" }, st := {} }, "ok")
   | ["ccscope", al] =>
